@@ -392,6 +392,19 @@ func runQueueCheck(ctx *core.Ctx, pool *par.Pool, id string) {
 		total.Transitions += st.Transitions
 		ctx.Set("depth_"+c.String(), st.Depth)
 	}
+	// (iii) counters across failed flushes: fill-until-error histories on small bounded files
+	if id == "C17" {
+		fd := 4
+		if !quick {
+			fd = 6
+		}
+		for _, c := range []QCfgSpec{{File: "A", Buffer: 5}, {File: "P17", Buffer: 5}} {
+			st := qBFS(ctx, pool, c, fillAlphabet(c, quick), fd, false, owns, nil)
+			total.States += st.States
+			total.Transitions += st.Transitions
+			ctx.Set("fill_depth_"+c.String(), st.Depth)
+		}
+	}
 	ctx.Set("shapes_run", shapesRun)
 	ctx.Set("shape_operations", shapeOpsRun)
 	ctx.Set("shape_outcomes", outcomes)
@@ -399,6 +412,31 @@ func runQueueCheck(ctx *core.Ctx, pool *par.Pool, id string) {
 	ctx.Set("transitions", total.Transitions)
 	ctx.Set("traces_validated_against_impl", total.Transitions+shapesRun)
 	ctx.Set("explanation", "shapes: complete producer/consumer scripts over boundary event sizes x chunkings x flush policies x read policies; states/transitions: explicit-state search over queue operations; every step is executed on the real queue and compared with the slice-of-events model")
+}
+
+// fillAlphabet: operations for small bounded files, including fill-until-error.
+func fillAlphabet(c QCfgSpec, quick bool) []Q {
+	qcfg, _ := c.cfg()
+	u := qcfg.File.PageSize / 1024 // sizes scale with the page size
+	a := []Q{
+		{K: queuedrv.QWrite, A: 900 * u, B: queuedrv.ChunkOne},
+		{K: queuedrv.QWrite, A: 2900 * u, B: queuedrv.ChunkPage},
+		{K: queuedrv.QWrite, A: 4900 * u, B: queuedrv.ChunkOne},
+		{K: queuedrv.QFlush},
+		{K: queuedrv.QFill, A: 300 * u},
+		{K: queuedrv.QFillFlush, A: 625 * u},
+		{K: queuedrv.QFill, A: 900 * u},
+		{K: queuedrv.QFill, A: 4900 * u},
+		{K: queuedrv.QFinish},
+		{K: queuedrv.QReadAll},
+		{K: queuedrv.QAck, A: 0},
+		{K: queuedrv.QAck, A: 1},
+		{K: queuedrv.QReopen},
+	}
+	if !quick {
+		a = append(a, Q{K: queuedrv.QFill, A: 100}, Q{K: queuedrv.QFill, A: 2900 * u}, Q{K: queuedrv.QWrite, A: 100})
+	}
+	return a
 }
 
 // ---- C12 ----
@@ -416,26 +454,7 @@ func runC12(ctx *core.Ctx, pool *par.Pool) {
 	var total xstate.Stats
 	fills := 0
 	for _, c := range cfgs {
-		qcfg, _ := c.cfg()
-		u := qcfg.File.PageSize / 1024 // sizes scale with the page size
-		alphabet := []Q{
-			{K: queuedrv.QWrite, A: 900 * u, B: queuedrv.ChunkOne},
-			{K: queuedrv.QWrite, A: 2900 * u, B: queuedrv.ChunkPage},
-			{K: queuedrv.QWrite, A: 4900 * u, B: queuedrv.ChunkOne},
-			{K: queuedrv.QFlush},
-			{K: queuedrv.QFill, A: 300 * u},
-			{K: queuedrv.QFillFlush, A: 625 * u},
-			{K: queuedrv.QFill, A: 900 * u},
-			{K: queuedrv.QFill, A: 4900 * u},
-			{K: queuedrv.QFinish},
-			{K: queuedrv.QReadAll},
-			{K: queuedrv.QAck, A: 0},
-			{K: queuedrv.QAck, A: 1},
-			{K: queuedrv.QReopen},
-		}
-		if !quick {
-			alphabet = append(alphabet, Q{K: queuedrv.QFill, A: 100}, Q{K: queuedrv.QFill, A: 2900}, Q{K: queuedrv.QWrite, A: 100})
-		}
+		alphabet := fillAlphabet(c, quick)
 		st := qBFS(ctx, pool, c, alphabet, depth, true, ownsC12, func(from *QNode, s *QSucc, isNew bool) {
 			if s.Op.K == queuedrv.QFill {
 				fills++
